@@ -43,6 +43,9 @@ def violation_terms(cyc, exclude_known=True):
             # recorded situations: F7 deletion (online roles only), or ended on a root older than one trusted before
             mids = cyc[i + 1:j + 1]
             wh = [z3.And(c.ok_root, e.ok_root, withheld(e, c)) for ci, c in enumerate(mids) for e in cyc[:i + 1 + ci]]
+            # ... or a load_root that had adopted a newer root with other online keys, had started deleting the stored files and then
+            # failed (I/O fault between the two unlinks): the newer root is forgotten with the failed cycle
+            wh += [z3.And(z3.Not(c.ok_root), z3.Or([z3.And(c.pre[fn][0], z3.Not(c.post_root[fn][0])) for fn in ('timestamp.json', 'snapshot.json')])) for c in mids]
             f7 = [z3.And(c.ok_root, known_class(c)) for c in mids]
             kn_on = z3.Or(f7 + wh) if exclude_known else z3.BoolVal(False)
             kn_tg = z3.Or(wh) if exclude_known else z3.BoolVal(False)
@@ -106,12 +109,10 @@ def check(R, tier):
                     rhs = z3.UGT(Ver(old), Ver(s.P.served))
                 R.obligation(f'load_{s.name}: OlderMetadata only if a stored document that verifies under the current root is strictly newer', p.pc, z3.And(lhs, rhs), group='liveness/' + s.name)
             if p.ok:
-                w = p.writes('/ds/' + f)
                 R.obligation(f'load_{s.name}: success persists exactly the newly trusted document', p.pc,
-                             z3.BoolVal(len(w) == 1 and w[0][2].kind == 'json' and z3.eq(doc_id(w[0][2].d['val']), s.P.served)), group='persist/' + s.name)
+                             z3.BoolVal(p.stored_doc_is('/ds/' + f, s.P.served) and p.touched() <= {'/ds/' + f}), group='persist/' + s.name)
             else:
-                R.obligation(f'load_{s.name}: a failed step leaves the trust files untouched', p.pc,
-                             z3.BoolVal(not [e for e in p.events if e[0] in ('fs.write', 'fs.unlink', 'fs.write_failed')]), group='fail-no-write/' + s.name)
+                R.obligation(f'load_{s.name}: a failed step leaves the trust files untouched', p.pc, z3.BoolVal(not p.touched()), group='fail-no-write/' + s.name)
     # ---- history queries
     for n in ncyc:
         shipped, cyc, f = build_history(sums, n)
